@@ -34,12 +34,14 @@ Proof.
   unfold aval, ang_add. cbn [anum aexp]. set (K := Nat.max (aexp a) (aexp b)).
   assert (Ha : (aexp a <= K)%nat) by (unfold K; lia). assert (Hb : (aexp b <= K)%nat) by (unfold K; lia).
   rewrite plus_IZR, !mult_IZR, !IZR_pow2.
-  replace (2 ^ K) with (2 ^ (K - aexp a) * 2 ^ aexp a) at 1 by (rewrite <- pow_add; f_equal; lia).
+  assert (Ea : 2 ^ K = 2 ^ (K - aexp a) * 2 ^ aexp a) by (rewrite <- pow_add; f_equal; lia).
+  assert (Eb : 2 ^ K = 2 ^ (K - aexp b) * 2 ^ aexp b) by (rewrite <- pow_add; f_equal; lia).
   pose proof (pow2_pos (K - aexp a)). pose proof (pow2_pos (K - aexp b)). pose proof (pow2_pos (aexp a)). pose proof (pow2_pos (aexp b)).
-  assert (E : 2 ^ (K - aexp a) * 2 ^ aexp a = 2 ^ (K - aexp b) * 2 ^ aexp b) by (rewrite <- !pow_add; f_equal; lia).
-  field_simplify_eq; [|lra|lra].
-  - nra.
-  - split; lra.
+  pose proof (pow2_pos K).
+  transitivity (IZR (anum a) * 2 ^ (K - aexp a) * PI / 2 ^ K + IZR (anum b) * 2 ^ (K - aexp b) * PI / 2 ^ K); [field; lra|].
+  f_equal.
+  - rewrite Ea. field. split; lra.
+  - rewrite Eb. field. split; lra.
 Qed.
 
 (* ---- closed expressions do not depend on the parameter values ---- *)
@@ -121,11 +123,14 @@ Lemma cden_div2 th e x : cden th e = RtoC x -> cden th (Div e (Num (2 # 1))) = R
 Proof. intros H. cbn [cden]. rewrite H, Q2R_21. apply RtoC_real_eq; cbn [Cdiv Cmult Cinv RtoC fst snd]; field. Qed.
 Lemma cden_e3 x : cden (th1 x) e3 = RtoC (- (x / 2 + x / 2) / 2).
 Proof.
-  unfold e3. apply cden_div2. cbn [cden]. rewrite !cden_half. apply RtoC_real_eq; cbn [Copp Cplus RtoC fst snd]; ring.
+  unfold e3. apply cden_div2. change (cden (th1 x) (Neg (Add half half))) with
+    (Copp (Cplus (cden (th1 x) half) (cden (th1 x) half))). rewrite !cden_half. apply RtoC_real_eq; cbn [Copp Cplus RtoC fst snd]; ring.
 Qed.
 Lemma cden_e6 x : cden (th1 x) e6 = RtoC (x / 2 + x / 2 / 2).
 Proof.
-  unfold e6. cbn [cden]. rewrite (cden_div2 _ half (x / 2) (cden_half x)), cden_half.
+  unfold e6. change (cden (th1 x) (Add half (Div half (Num (2 # 1))))) with
+    (Cplus (cden (th1 x) half) (cden (th1 x) (Div half (Num (2 # 1))))).
+  rewrite (cden_div2 _ half (x / 2) (cden_half x)), cden_half.
   apply RtoC_real_eq; cbn [Cplus RtoC fst snd]; ring.
 Qed.
 
@@ -144,9 +149,9 @@ Theorem expansion_sem (t c : nat) (phi : ang) : c <> t ->
 Proof.
   intros Hct. set (x := aval phi).
   pose proof (scirc_eqb_sound (PR_C (th1 x)) 2 rule_lhs rule_rhs [c; t] rule_ok (nodup2 c t Hct) eq_refl) as E.
-  transitivity (sem (place [c; t] (cden (PR_C (th1 x)) rule_lhs))); [| rewrite E]; apply sem_ext.
+  transitivity (sem (place [c; t] (SymProofs.cden (PR_C (th1 x)) rule_lhs))); [| rewrite E]; apply sem_ext.
   - (* the six generated gates against the instantiated left-hand side *)
-    unfold expansion. cbn [map rule_lhs cden ecirc sden place fst snd pl nth]. unfold qden. cbn [gname garg gtargets gcontrols oval].
+    unfold expansion. cbn [map rule_lhs SymProofs.cden ecirc sden place fst snd pl nth]. unfold qden. cbn [gname garg gtargets gcontrols oval].
     repeat (apply Forall2_cons); try apply Forall2_nil.
     + eapply (geq_reparam x _ half (gmexp "RZ")); [reflexivity|reflexivity|reflexivity|].
       rewrite aval_half. apply cden_half.
@@ -158,9 +163,69 @@ Proof.
       rewrite aval_half. apply cden_half.
     + eapply (geq_reparam x _ e6 (gmexp "GLOBALPHASE")); [reflexivity|reflexivity|reflexivity|].
       rewrite aval_add, !aval_half. apply cden_e6.
-  - cbn [map rule_rhs cden ecirc sden place fst snd pl nth]. unfold qden. cbn [gname garg gtargets gcontrols oval].
+  - cbn [map rule_rhs SymProofs.cden ecirc sden place fst snd pl nth]. unfold qden. cbn [gname garg gtargets gcontrols oval].
     apply Forall2_cons; [|apply Forall2_cons; [|apply Forall2_nil]].
     + apply geq_refl.
     + apply geq_sym. eapply geq_phase; [reflexivity|reflexivity|].
       cbn [msubst gmexp String.eqb Ascii.eqb Bool.eqb map mden nth]. apply cden_globalphase. apply cden_half.
+Qed.
+
+(* ---- lifting to whole gate lists ---- *)
+Definition cphase_shape (g : qg) : Prop :=
+  gname g = "CPHASE" -> exists t c a, g = QG "CPHASE" [t] [c] (Some a) /\ c <> t.
+
+(* the accumulated global phase angle: phi/2 per expanded controlled phase *)
+Definition exp_angle (l : list qg) : R :=
+  fold_right (fun g acc => (if String.eqb (gname g) "CPHASE" then oval (garg g) / 2 else 0) + acc) 0 l.
+
+Lemma sem_cons (g : gate Cops) c psi : sem (g :: c) psi = sem c (Base.app (fst g) (snd g) psi).
+Proof. reflexivity. Qed.
+
+Lemma sem_expand l : Forall cphase_shape l -> forall psi,
+  sem (map qden (flat_map expand l)) psi = sscale (cis (exp_angle l)) (sem (map qden l) psi).
+Proof.
+  induction 1 as [|g l Hg _ IH]; intros psi.
+  - cbn [flat_map map exp_angle fold_right]. rewrite cis_0, sscale_1. reflexivity.
+  - cbn [flat_map exp_angle fold_right]. rewrite map_app, (Lemmas.sem_app Cops).
+    destruct (String.eqb (gname g) "CPHASE") eqn:E.
+    + apply String.eqb_eq in E. destruct (Hg E) as [t [c [a [-> Hct]]]].
+      change (expand (QG "CPHASE" [t] [c] (Some a))) with (expansion [t] [c] a).
+      rewrite (expansion_sem t c a Hct). cbn [map]. rewrite !sem_cons. cbn [sem fold_left].
+      rewrite app_phase, IH, sem_sscale, sscale_sscale. cbn [garg oval]. rewrite <- cis_add.
+      fold (exp_angle l). replace (exp_angle l + aval a / 2)%R with (aval a / 2 + exp_angle l)%R by ring. reflexivity.
+    + assert (Ex : expand g = [g]) by (unfold expand; rewrite E; reflexivity).
+      rewrite Ex. cbn [map]. rewrite !sem_cons. cbn [sem fold_left]. rewrite IH.
+      fold (exp_angle l). replace (0 + exp_angle l)%R with (exp_angle l) by ring. reflexivity.
+Qed.
+
+Lemma shape_other g : String.eqb (gname g) "CPHASE" = false -> cphase_shape g.
+Proof. intros E H. apply String.eqb_eq in H. congruence. Qed.
+
+Lemma body_shape N sw : Forall cphase_shape (qft_body N sw false).
+Proof.
+  unfold qft_body. destruct (Nat.eqb N 1).
+  - constructor; [apply shape_other; reflexivity| constructor].
+  - apply Forall_app. split.
+    + apply Forall_flat_map. intros i Hi. unfold qft_row. apply Forall_app. split.
+      * apply Forall_flat_map. intros j Hj. apply in_seq in Hj. cbn [cgate]. constructor; [|constructor].
+        intros _. exists j, i, (qft_angle i j). split; [reflexivity| lia].
+      * constructor; [apply shape_other; reflexivity| constructor].
+    + destruct sw; [|constructor]. unfold qft_swaps. apply Forall_forall. intros g Hg.
+      apply in_map_iff in Hg. destruct Hg as [i [<- _]]. apply shape_other. reflexivity.
+Qed.
+
+(* ALL N, both swapping options: the CNOT-expanded circuit acts as the native one times the unit scalar
+   e^{i * sum phi/2} *)
+Theorem to_cnot_upto_phase N sw lt lf :
+  qft_gate_sequence N sw true = Some lt -> qft_gate_sequence N sw false = Some lf ->
+  forall psi, sem (map qden lt) psi = sscale (cis (exp_angle lf)) (sem (map qden lf) psi).
+Proof.
+  intros Ht Hf psi. apply qft_gate_sequence_inv in Ht. apply qft_gate_sequence_inv in Hf.
+  destruct Ht as [_ ->]. destruct Hf as [_ ->]. rewrite expanded_is_flat_map. apply sem_expand. apply body_shape.
+Qed.
+
+Lemma cphase_to_cnot_sem (t c : nat) (phi : ang) l : c <> t -> cphase_to_cnot [t] [c] phi = Some l ->
+  sem (map qden l) = sem [qden (QG "CPHASE" [t] [c] (Some phi)); phase_gate (cis (aval phi / 2))].
+Proof.
+  intros Hct H. rewrite cphase_to_cnot_eq in H. injection H as <-. apply expansion_sem. exact Hct.
 Qed.
